@@ -88,6 +88,11 @@ func receiversC07() []namedD {
 		{"object-float-keys", &D{Tag: "m", Kty: "other", Ety: "any", Ks: []*D{h.FloatD(1.5), h.FloatD(2)}, Vs: []*D{h.Obj("k", h.FloatD(1)), h.Obj("k", h.FloatD(2))}}},
 		{"struct", &D{Tag: "st", Fs: []h.Field{{Name: "A", Exported: true, Iface: false, V: h.Int("int", 1)}, {Name: "B", Exported: true, Iface: true, V: h.Str("x")}}}},
 		{"struct-unexported", &D{Tag: "st", Fs: []h.Field{{Name: "A", Exported: true, Iface: true, V: h.Int("int", 1)}, {Name: "b", Exported: false, Iface: true, V: h.Str("x")}}}},
+		// a struct that holds, by value, a struct of ANOTHER type with an unexported field; a Go array of such structs; the zero values of both
+		{"struct-nesting-unexported", &D{Tag: "st", Fs: []h.Field{{Name: "Inner", Exported: true, Iface: false, V: unexpAD(h.Int("int", 1), h.Str("x"))}, {Name: "N", Exported: true, Iface: true, V: h.FloatD(2)}}}},
+		{"struct-nesting-unexported-zero", &D{Tag: "st", Fs: []h.Field{{Name: "Inner", Exported: true, Iface: false, V: unexpAD(h.Nil(), h.Nil())}, {Name: "N", Exported: true, Iface: true, V: h.Nil()}}}},
+		{"array-of-struct-unexported", &D{Tag: "ar", Ety: "other", Xs: []*D{unexpAD(h.Int("int", 1), h.Str("x")), unexpAD(h.Nil(), h.Nil())}}},
+		{"slice-of-struct-unexported", &D{Tag: "sl", Ety: "other", Xs: []*D{unexpAD(h.Int("int", 1), h.Str("x")), unexpAD(h.Nil(), h.Nil())}}},
 		{"nil-pointer", h.NilPtr()},
 		{"pointer-to-int", h.PtrTo(h.Int("int", 7))},
 		{"pointer-to-bool", h.PtrTo(h.Bool(true))},
@@ -95,6 +100,10 @@ func receiversC07() []namedD {
 		{"nil-func", &D{Tag: "fn", IsNil: true}},
 		{"chan", &D{Tag: "ch"}},
 	}
+}
+
+func unexpAD(a, b *D) *D {
+	return &D{Tag: "st", Fs: []h.Field{{Name: "A", Exported: true, Iface: true, V: a}, {Name: "b", Exported: false, Iface: true, V: b}}}
 }
 
 var argPoolC07 = []string{"0", "-1", "1.5", "1e30", `""`, `"a"`, `"0"`, `"(["`, "true", "$.arr", "$.zs", `"$.k"`, "{$.t}", "2"}
